@@ -225,18 +225,24 @@ def r4_bits(ctx):
     if isinstance(st, ast.Assign) and isinstance(val, ast.Call) and (dotted(val.func) or '').split('.')[-1] == 'unpack':
       fmt = parse_format(val.args[0])
       t = st.targets[0]
-      if fmt is None or len(fmt.fields) != 1 or fmt.fields[0].code not in 'iIlL' or fmt.order not in ('!', '>'):
-        raise bitvec.Undecidable('header is not unpacked as one big-endian 32-bit integer')
+      sizes = {'b': 1, 'B': 1, 'h': 2, 'H': 2, 'i': 4, 'I': 4, 'l': 4, 'L': 4}
+      if fmt is None or fmt.order not in ('!', '>') or any(x.code not in sizes for x in fmt.fields):
+        raise bitvec.Undecidable('header is not unpacked as big-endian integers')
+      codes = [x.code for x in fmt.fields for _ in range(x.count)]
+      if sum(sizes[c] for c in codes) != 4:
+        raise bitvec.Undecidable('header fields do not cover the 4 header bytes')
       if sub0 and isinstance(t, ast.Name):
         t = ast.Tuple(elts=[t], ctx=ast.Store())
-      if not (isinstance(t, ast.Tuple) and len(t.elts) == 1 and isinstance(t.elts[0], ast.Name)):
+      if not (isinstance(t, ast.Tuple) and len(t.elts) == len(codes) and all(isinstance(x, ast.Name) for x in t.elts)) or (sub0 and len(codes) != 1):
         raise bitvec.Undecidable('unpack target shape')
       raw = env['__raw__']
-      if fmt.fields[0].code in 'il':
-        bits = raw.bits[:32] + [raw.bits[31]] * (bitvec.W - 32)
-      else:
-        bits = raw.bits[:32] + [0] * (bitvec.W - 32)
-      env[t.elts[0].id] = bitvec.BV(bits)
+      pos = 32
+      for c, tgt in zip(codes, t.elts):
+        n = sizes[c] * 8
+        fb = raw.bits[pos - n:pos]
+        pos -= n
+        ext = fb[-1] if c.islower() else 0
+        env[tgt.id] = bitvec.BV(fb + [ext] * (bitvec.W - n))
       return True
     return None
 
@@ -267,6 +273,40 @@ def r4_bits(ctx):
       continue
     ctx.ob('C13.R5', mt, 'MessageType.%s == %d' % (k, v), types.get(k) == v,
            'MessageType.%s is %r' % (k, types.get(k)), 'message type numbers are fixed by the mux protocol', nontrivial=False)
+
+
+def counted_while(fnode, callee):
+  """A while loop that calls `callee` once per iteration, exactly <count> times, for a count unpacked from the wire:
+  `v = n; while v > 0: callee(); v -= 1`   or   `i = 0; while i < n: callee(); i += 1`."""
+  unpacked = set()
+  for st in walk_no_nested(fnode):
+    if isinstance(st, ast.Assign) and isinstance(st.value, ast.Call) and (dotted(st.value.func) or '').split('.')[-1] == 'unpack':
+      for t in st.targets:
+        unpacked |= set(x.id for x in ast.walk(t) if isinstance(x, ast.Name))
+  body = [s_ for s_ in fnode.body]
+  for k, st in enumerate(body):
+    if not isinstance(st, ast.While) or st.orelse or not isinstance(st.test, ast.Compare) or len(st.test.ops) != 1:
+      continue
+    calls = [c for s2 in st.body for c in ast.walk(s2) if isinstance(c, ast.Call) and call_attr(c) == callee]
+    top_calls = [s2 for s2 in st.body if isinstance(s2, ast.Expr) and isinstance(s2.value, ast.Call) and call_attr(s2.value) == callee]
+    if len(calls) != 1 or len(top_calls) != 1 or any(isinstance(x, (ast.Break, ast.Continue, ast.Return)) for s2 in st.body for x in ast.walk(s2)):
+      continue
+    l, op, r_ = st.test.left, st.test.ops[0], st.test.comparators[0]
+    steps = [s2 for s2 in st.body if isinstance(s2, ast.AugAssign) and isinstance(s2.target, ast.Name) and isinstance(s2.value, ast.Constant) and s2.value.value == 1]
+    if len(steps) != 1 or len(st.body) != 2:
+      continue
+    v = steps[0].target.id
+    init = [s2 for s2 in body[:k] if isinstance(s2, ast.Assign) and len(s2.targets) == 1 and isinstance(s2.targets[0], ast.Name) and s2.targets[0].id == v]
+    if len(init) != 1:
+      continue
+    iv = init[0].value
+    down = isinstance(steps[0].op, ast.Sub) and isinstance(l, ast.Name) and l.id == v and isinstance(op, (ast.Gt, ast.NotEq)) and isinstance(r_, ast.Constant) and r_.value == 0 \
+      and isinstance(iv, ast.Name) and iv.id in unpacked
+    up = isinstance(steps[0].op, ast.Add) and isinstance(l, ast.Name) and l.id == v and isinstance(op, (ast.Lt, ast.NotEq)) and isinstance(r_, ast.Name) and r_.id in unpacked \
+      and isinstance(iv, ast.Constant) and iv.value == 0
+    if down or up:
+      return True
+  return False
 
 
 # ----------------------------------------------------------------------- R5
@@ -355,12 +395,28 @@ def r5_tables(ctx):
       if ex[0] == 'raise':
         continue
       flat.extend(expand_events(ctx, w, ev, 2, lambda t: t.module.rel == SER))
+    def layout(x):
+      # bytes produced by an expression handed to write(): struct fields of pack(...), raw byte strings ('ns'), concatenations
+      if isinstance(x, ast.Call) and call_attr(x) == 'pack' or isinstance(x, ast.Call) and (dotted(x.func) or '').split('.')[-1] == 'pack':
+        fmt = parse_format(x.args[0])
+        return [''.join('%s%s' % ('' if f_.count in (1,) else ('n' if f_.count is None else f_.count), f_.code) for f_ in fmt.fields) if fmt else '?'], [x]
+      if isinstance(x, ast.BinOp) and isinstance(x.op, ast.Add):
+        l, lp = layout(x.left)
+        r_, rp_ = layout(x.right)
+        return [''.join(l + r_)], lp + rp_
+      if isinstance(x, (ast.Name, ast.Attribute)):
+        return ['ns'], []
+      return ['?'], []
     for ev in flat:
-      packs = [e.node for e in ev if e.kind == 'call' and call_attr(e.node) == 'pack']
-      shapes = []
-      for c in packs:
-        fmt = parse_format(c.args[0])
-        shapes.append(''.join('%s%s' % ('' if x.count in (1,) else ('n' if x.count is None else x.count), x.code) for x in fmt.fields) if fmt else '?')
+      writes = [e.node for e in ev if e.kind == 'call' and call_attr(e.node) == 'write' and e.node.args]
+      shapes, packs = [], []
+      for c in writes:
+        sh, pk = layout(c.args[0])
+        shapes += sh
+        packs += pk
+      if not writes:
+        packs = [e.node for e in ev if e.kind == 'call' and call_attr(e.node) == 'pack']
+        shapes = [layout(c)[0][0] for c in packs]
       ok = shapes in (['hns', 'hns'], ['hns', 'h', '2q'], ['hns', 'h', 'qq'])
       if ok and len(shapes) == 3:
         # constant length 16 == calcsize('!qq')
@@ -396,6 +452,8 @@ def r5_tables(ctx):
   loops = [n for n in walk_no_nested(r.node) if isinstance(n, ast.For)]
   okl = any(call_attr(c) == '_ReadContext' for l in loops for c in ast.walk(l) if isinstance(c, ast.Call)) and any(
     'nctx' in U(l.iter) or U(l.iter).startswith('range(') for l in loops)
+  if not okl:
+    okl = counted_while(r.node, '_ReadContext')
   ctx.ob('C13.R5', r, 'all reply contexts skipped before the payload', okl, 'context skip loop missing',
          'the thrift payload starts after the last reply context')
   # status dispatch
